@@ -539,6 +539,9 @@ class Scheduler:
                 # The re-submitted job is scheduled again: it has to be
                 # counted so that the experiment waits for it
                 self.xp.unfinishedJobs += 1
+                # ... and it replaces the failed one, so that further
+                # submissions are compared with the job that is scheduled now
+                self.jobs[job.identifier] = job
             else:
                 logger.warning("Job %s already submitted", job.identifier)
                 return other
